@@ -314,6 +314,17 @@ def worker_scenarios(r: random.Random, nrandom: int) -> list[tuple[dict, list[tu
                     acts += [('W', max(0, total - (total // (nf + 1)) * nf)), ('S',), ('E', 0), ('S',)]
                 acts += [('D', 0), ('S',), ('D', 0), ('S',), ('D', 0), ('S',), ('D', 0), ('S',)]
                 out.append((cfg, acts, 'echo-product'))
+    # idle_timeout below / equal / above the consistency timeout: nothing arrives for idle_timeout after the patch, then a
+    # stale foreign event arrives before the echo (delayed longer than idle_timeout, shorter than the consistency timeout)
+    for idle in (1.0, 2.0, 3.0, 5.0):
+        for ct in (3.0, 6.0):
+            for quiet8 in sorted({int(idle * 8) + 1, int(idle * 8) + 4, int(ct * 8) - 1}):
+                if quiet8 <= 0:
+                    continue
+                c = qd.Config(limit=None, indexed=False, nuids=2, idle=idle, exit_timeout=2.0, ctimeout=ct).as_dict()
+                acts = [('F', 0), ('S',), ('P', 0), ('S',), ('W', quiet8), ('S',), ('F', 0), ('S',), ('D', 0), ('S',),
+                        ('W', 4), ('S',), ('E', 0), ('S',), ('D', 0), ('S',)]
+                out.append((c, acts, 'idle-vs-consistency'))
     # timeout 0 disables the barrier
     cfg0 = qd.Config(limit=None, indexed=False, nuids=2, idle=5.0, exit_timeout=2.0, ctimeout=0.0).as_dict()
     out.append((cfg0, [('F', 0), ('S',), ('P', 0), ('S',), ('F', 0), ('S',), ('D', 0), ('S',)], 'disabled'))
@@ -342,13 +353,26 @@ def worker_scenarios(r: random.Random, nrandom: int) -> list[tuple[dict, list[tu
             if r.random() < 0.6:
                 acts.append(('S',))
         acts.append(('S',))
-        c = qd.Config(limit=r.choice([None, None, 1]), indexed=False, nuids=2, idle=5.0, exit_timeout=2.0,
+        c = qd.Config(limit=r.choice([None, None, 1]), indexed=False, nuids=2, idle=r.choice([5.0, 5.0, 1.0, 2.0]), exit_timeout=2.0,
                       ctimeout=r.choice([3.0, 3.0, 3.0, 1.0, 6.0])).as_dict()
         out.append((c, acts, 'random'))
     return out
 
 
-def run_worker_case(cfgd: dict, actions: list[tuple]) -> dict:
+def pass_time(drv: qd.Driver, eighths: int) -> None:
+    """Time passes; the timers on the way fire at their own time (no jump over them)."""
+    target = drv.loop.time() + eighths / 8
+    drv.settle()
+    while True:
+        t = drv.loop.next_timer()
+        if t is None or t > target:
+            break
+        drv.loop.advance_to(t)
+        drv.settle()
+    drv.loop.advance_to(target)
+
+
+def run_worker_case(cfgd: dict, actions: list[tuple], walk: bool = False) -> dict:
     cfg = qd.Config.from_dict(cfgd)
     res: dict[str, Any] = {'cfg': cfgd, 'actions': [list(a) for a in actions], 'fails': [], 'breaks': [], 'terms': []}
     drv = qd.Driver(cfg)
@@ -367,6 +391,8 @@ def run_worker_case(cfgd: dict, actions: list[tuple]) -> dict:
                 elif k == 'E':
                     if unechoed[a[1]]:
                         drv.act(('F', a[1], 0, unechoed[a[1]].pop(0)))
+                elif k == 'W' and walk:
+                    pass_time(drv, a[1])
                 else:
                     drv.act(tuple(a))
             drv.finish_all()
@@ -588,6 +614,14 @@ def cycle_scenarios(r: random.Random, nrandom: int) -> list[tuple[dict, list[tup
             acts += [('W', 100), ('S',), ('M', 0), ('N', 0), ('S',), ('N', 0), ('S',)]
             for script in ([(False, True, 0)], [(False, True, 0), (False, False, 0)], [(False, True, 4), (True, False, 0), (False, False, 0)]):
                 out.append((cfg, acts, script))
+    # idle_timeout vs consistency timeout: a foreign edit made BEFORE the patch is delivered after idle_timeout of silence,
+    # before the echo
+    for idle in (1.0, 3.0, 5.0):
+        for quiet8 in (int(idle * 8) + 1, int(idle * 8) + 6, 23):
+            ci = qd.Config(limit=None, indexed=False, nuids=2, idle=idle, exit_timeout=2.0, ctimeout=3.0).as_dict()
+            acts = [('M', 0), ('M', 0), ('N', 0), ('S',), ('W', quiet8), ('S',), ('N', 0), ('S',), ('W', 4), ('S',), ('N', 0), ('S',),
+                    ('W', 60), ('S',)]
+            out.append((ci, acts, [(False, True, 0, None, 0), (False, False, 0, None, 0)]))
     # the touch-dummy cycle: a delayed handler whose delay is slept in full, PATCH latency, a foreign edit applied and
     # delivered while the touch request is in flight, the echo of the touch delivered late (or never)
     for delay8 in (4, 8):
@@ -624,7 +658,8 @@ def cycle_scenarios(r: random.Random, nrandom: int) -> list[tuple[dict, list[tup
         acts.append(('S',))
         script = [(r.random() < 0.15, r.random() < 0.6, r.choice([0, 0, 1, 3, 7]),
                    r.choice([None, None, 0, 3, 5, 9]), r.choice([0, 0, 1, 3])) for _ in range(r.randrange(1, 6))]
-        c = qd.Config(limit=None, indexed=False, nuids=2, idle=5.0, exit_timeout=2.0, ctimeout=r.choice([3.0, 3.0, 1.0, 0.0])).as_dict()
+        c = qd.Config(limit=None, indexed=False, nuids=2, idle=r.choice([5.0, 5.0, 1.0, 2.0]), exit_timeout=2.0,
+                      ctimeout=r.choice([3.0, 3.0, 1.0, 0.0])).as_dict()
         out.append((c, acts, script))
     return out
 
@@ -735,6 +770,11 @@ def loop_scenarios(r: random.Random, nrandom: int) -> list[dict]:
                             'index': latency == 0.0})
     for foreign in ([], [0.5], [0.5, 2.0, 3.5]):
         out.append({'lag': 1000.0, 'own_only': True, 'foreign': foreign, 'latency': 0.0, 'status_patch': False})   # the echo never arrives
+    # idle_timeout below / equal / above the consistency timeout (3 s): the watch lags by 2 s, a foreign edit made before the
+    # operator's patch is delivered after more than idle_timeout of silence and before the echo
+    for idle in (1.0, 3.0, 5.0):
+        for off in (1.25, 1.5, 1.875):
+            out.append({'lag': 2.0, 'own_only': False, 'foreign': [off], 'latency': 0.0, 'status_patch': False, 'idle': idle})
     # a delayed (retried) change handler: the delay is slept in full, the touch-dummy patch is sent with API latency,
     # a foreign edit is applied and delivered while that request is in flight, the echo of the touch lags
     for delay in (0.5, 1.0):
@@ -756,6 +796,8 @@ def run_loop_case(sc: dict) -> dict:
 
     def configure(s: Any) -> None:
         s.persistence.consistency_timeout = T
+        if sc.get('idle'):
+            s.queueing.idle_timeout = sc['idle']
 
     w = sim.World(latency=sc['latency'])
     try:
@@ -869,7 +911,7 @@ def _work(job: tuple) -> list[Any]:
                 out.append((c, {'error': f'{type(e).__name__}: {e}'}))
         return out
     if kind == 'worker':
-        return [run_worker_case(cfgd, acts) for cfgd, acts, _fam in items]
+        return [dict(run_worker_case(cfgd, acts, walk=(fam == 'idle-vs-consistency')), family2=fam) for cfgd, acts, fam in items]
     if kind == 'loop':
         return [run_loop_case(sc) for sc in items]
     if kind == 'cycle':
@@ -961,7 +1003,10 @@ def run(ctx: fw.Ctx) -> int:
             if c['cause'] == 'present' and c['ct'] not in (None, 0):
                 ctx.nontriv(['gate', c])
         elif kind == 'worker':
-            data = {'family': 'worker', 'cfg': x['cfg'], 'actions': x['actions']}
+            data = {'family': 'worker', 'cfg': x['cfg'], 'actions': x['actions'], 'walk': x.get('family2') == 'idle-vs-consistency'}
+            ctx.count('worker_families', str(x.get('family2')))
+            ctx.count('idle_vs_consistency', 'idle<consistency' if x['cfg']['idle'] < x['cfg']['ctimeout'] else
+                      'idle=consistency' if x['cfg']['idle'] == x['cfg']['ctimeout'] else 'idle>consistency')
             for b in x['breaks']:
                 nbreak['worker'] = nbreak.get('worker', 0) + 1
                 if nbreak['worker'] <= 3:
@@ -1018,7 +1063,7 @@ def replay(ctx: fw.Ctx, body: dict) -> bool:
         obs = run_gate_case(case['case'])
         gate_monitor(case['case'], obs, lambda what, sig, observed=None, expected=None: fails.append({'what': what, 'sig': sig, 'observed': observed}))
     elif fam == 'worker':
-        fails = run_worker_case(case['cfg'], [tuple(a) for a in case['actions']])['fails']
+        fails = run_worker_case(case['cfg'], [tuple(a) for a in case['actions']], walk=bool(case.get('walk')))['fails']
     elif fam == 'closed-loop':
         fails = run_loop_case(case['scenario'])['fails']
     elif fam == 'cycle':
